@@ -40,6 +40,12 @@ Fruit:
     ID: uint32
     Name: string
 ReplacedList: "[int32]|{patch:PATCH_REPLACE}"
+Limits:
+  "@type": "{Limits}|{patch:PATCH_REPLACE}"
+  "@struct":
+    MaxConn: uint32
+    Burst: uint32
+Timeout: "duration|{patch:PATCH_REPLACE}"
 ScalarList: "[int32]"
 StructList:
   "@type": "[Animal]"
@@ -60,6 +66,10 @@ Fruit:
   ID: 1
   Name: apple
 ReplacedList: [1, 2, 3]
+Limits:
+  MaxConn: 100
+  Burst: 10
+Timeout: 30s
 ScalarList: [1, 2, 3]
 StructList:
   - ID: 1
@@ -87,6 +97,13 @@ func c13Overlay(r *rand.Rand, name string, k int) string {
 	}
 	if r.Intn(2) == 0 {
 		fmt.Fprintf(&sb, "ReplacedList: [%d, %d]\n", 10*k, 10*k+1)
+	}
+	switch r.Intn(4) {
+	case 0:
+		// a PATCH_REPLACE struct / duration that the overlay states as all-zero: present but empty — it resets the field
+		sb.WriteString("Limits:\n  MaxConn: 0\nTimeout: 0s\n")
+	case 1:
+		fmt.Fprintf(&sb, "Limits:\n  MaxConn: %d\n", 7+k)
 	}
 	if r.Intn(2) == 0 {
 		fmt.Fprintf(&sb, "ScalarList: [%d]\n", 4+k)
